@@ -1251,7 +1251,12 @@ class Face3D(Base2DIn3D):
             ed_len = (seg.length for seg in t_mesh.naked_edges)
             tol = min(ed_len) / 10
             f_bound = Polyline3D.join_segments(t_mesh.naked_edges, tol)
-            final_faces.append(Face3D(f_bound[0].vertices, plane=self.plane))
+            group_face = Face3D(f_bound[0].vertices, plane=self.plane)
+            if len(f_bound) == 1 and \
+                    abs(group_face.area - t_mesh.area) <= 1e-6 * t_mesh.area:
+                final_faces.append(group_face)
+            else:  # the outline of the group is not one simple loop; keep its triangles
+                final_faces.extend(Face3D(tri, plane=self.plane) for tri in tf)
         return final_faces
 
     def split_with_line(self, line, tolerance):
